@@ -125,6 +125,22 @@ def big_runs():
         runs.append({"id": "splithdr:%s" % "-".join(map(str, cuts)),
                      "ops": [{"op": "parse_record", "ct": 22, "ver": 771, "data": [{"lit": pc, "fill": [0, 0, 0]}]} for pc in pieces]
                             + [{"op": "parse_record", "ct": 22, "ver": 771, "data": [{"lit": [], "fill": [5, 1, 16384]}]}]})
+    # first records that the one-shot parser REFUSES with each kind of hard error (an odd cipher list: LengthValue; a 33-byte session id:
+    # Verify; an unknown ServerHello version: Tag; an unknown handshake type: Switch), then records of other and of the same type, nocopy, reset;
+    # and defragmentations whose concatenation fails hard while the newest record, alone, would parse (no resynchronisation: the answer is the
+    # concatenation's)
+    rec = lambda ct, b, op="parse_record": {"op": op, "ct": ct, "ver": 771, "data": [{"lit": b, "fill": [0, 0, 0]}]}
+    ch_odd = [1, 0, 0, 41, 3, 3] + [7] * 32 + [0, 0, 3, 0, 47, 0, 1]
+    ch_sid33 = [1, 0, 0, 74, 3, 3] + [7] * 32 + [33] + [9] * 33 + [0, 2, 0, 47, 1, 0]
+    ch_comp = [1, 0, 0, 41, 3, 3] + [7] * 32 + [0, 0, 2, 0, 47, 9, 0]
+    for k, bad in enumerate([ch_odd, ch_sid33, ch_comp, [2, 0, 0, 2, 9, 9], [99, 0, 0, 1, 5], [4, 0, 0, 3, 0, 0, 0]]):
+        runs.append({"id": "hardfirst:%d" % k, "ops": [rec(22, bad), rec(21, [1, 0]), rec(22, [14, 0, 0, 0]), rec(22, [20, 0, 0, 2, 1]), rec(23, [1]),
+                                                       rec(22, bad), rec(22, [2]), rec(22, bad, "nocopy"), {"op": "reset", "ct": 0, "ver": 0, "data": [{"lit": [], "fill": [0, 0, 0]}]},
+                                                       rec(22, bad), rec(24, [1, 0, 1, 9, 0, 0])]})
+    for k, (first, later) in enumerate([([255, 0, 0], [0, 0, 0, 0]), ([1, 0, 0, 41, 3, 3], [14, 0, 0, 0]), ([2, 0, 0, 9, 9], [20, 0, 0, 1, 7]),
+                                        (ch_sid33[:20], ch_sid33[20:] + [14, 0, 0, 0]), ([1, 0, 0], [41, 3, 3] + [7] * 32 + [0, 0, 3, 0, 47, 0, 1])]):
+        runs.append({"id": "resync:%d" % k, "ops": [rec(22, first), rec(22, later), rec(22, [14, 0, 0, 0]), rec(21, [2, 40]), rec(22, [14, 0, 0, 0], "nocopy"),
+                                                    {"op": "reset", "ct": 0, "ver": 0, "data": [{"lit": [], "fill": [0, 0, 0]}]}, rec(22, [14, 0, 0, 0])]})
     return runs
 
 
